@@ -2,7 +2,8 @@
 C02 — Emitted packets and header codecs conform to the ETSI wire formats
 (EN 302 636-4-1 clause 9, EN 302 636-5-1 clause 7).  Property theorems only.
 
-Model: `FlexModel/Wire/{Bits,Headers,Packet}.lean` (the Python codecs and packet assembly after the C02 fixes).
+Model: `FlexModel/Wire/{Bits,Headers,Packet}.lean` (the Python codecs and packet assembly after the C02 fixes),
+       `FlexModel/Wire/Rx.lean` (per-reception secured-message context, several receive threads on one router).
 Spec:  `FlexModel/Wire/Spec.lean` — the standard's layouts as data and ONE generic `pack`/`unpack`;
        `Spec.octets l vs` = the octets the standard prescribes for field values `vs`;
        `FlexModel/Geo/LTSpec.lean` — which LT octet and which hop limit the standard prescribes (no model function in it).
@@ -636,7 +637,8 @@ theorem version_witness :
     (srcBasic ⟨true, false, true⟩ ⟨2, 1, 10, 60, 0⟩ none 1).version = 2 := by decide
 
 /-- **PL = payload length**: octets 4..5 of the common header of every request-built packet hold the number of
-payload octets handed over (BTP header + upper-layer payload), LS/beacon packets carry PL 0 -/
+payload octets handed over (BTP header + upper-layer payload), LS/beacon packets carry PL 0.  (`r.WF` contains
+`r.length = r.data.length`; §11 states the clause on the emitted packet and derives that hypothesis for BTP-layer requests) -/
 theorem pl_is_payload_length (mib : Mib) (hm : mib.WF) (r : Request) (hr : r.WF) (v : Variant) :
     (toBytesBE 8 (commonOfRequest r mib).encodeInt).getD 4 0 * 256 + (toBytesBE 8 (commonOfRequest r mib).encodeInt).getD 5 0
       = r.data.length ∧
